@@ -8,8 +8,9 @@ import runner_common as rc
 LEVEL = "proof"
 OPTS = {"p_handler": 0.55, "p_bs": 0.5, "handler_choices": ["S", "S", "S", "D", "A"], "p_metric": 0.9,
         "p_fail_exc": 0.6, "p_special": 0.05,
-        # the context-manager entry binds the per-call handler / hook / sleeper once for several calls
-        "entries": ["retry", "retry", "retry", "retry.ctx"]}
+        # the context-manager entry binds the per-call handler / hook / sleeper once for several calls; the sugar entry points
+        # (RetryPolicy, decorator, from_config) must forward every per-call and per-policy handler / hook / sleeper
+        "entries": ["retry", "retry", "retry", "retry.ctx", "retrypolicy", "retrypolicy", "retrypolicy.ctx", "decorator", "retrycfg"]}
 
 
 def run(chk):
@@ -21,8 +22,7 @@ def run(chk):
     rc.run_runner_check(chk, "C16", "proj_C16", OPTS, theorems_ok=ok)
     if ok:
         import source_tie
-        source_tie.report(chk, source_tie.sleep_tie(chk), "sleep",
-                          "scripted call sequences (random, abort sentinels and sweeps): no property violation found")
+        source_tie.runner_ties(chk)
 
 
 def replay(path):
